@@ -44,7 +44,7 @@ def run(cx):
         oks = [i for i, bl in enumerate(b.blocks) if not bl.get("cleanup") for s in bl["s"] if s["k"] == "assign" and s["lhs"] == 0 and s["rv"].get("variant") == "Ok"]
         ob.require(len(oks) == 1 and b.dominates(rm[0].bb, oks[0]), "disconnect/ok-after-remove", "disconnect returns Ok without removing", b.path)
         from . import c04
-        sub = cx.__class__("C09", prog, cx.tier, cx.config, cx.tree)
+        sub = cx.__class__("C09", prog, cx.tier, cx.config, cx.tree, repo=cx.repo)
         c04.run(sub)
         w = [x for x in sub.obs if x.oid in ("C04.2c", "C04.1d")]
         ob.require(len(w) == 2 and not any(x.violations for x in w), "disconnect/remove-words", "ActivePeersInner::remove words / lock discipline refuted (C04.2c, C04.1d)", f"{CM}::ActivePeersInner::remove")
@@ -116,7 +116,7 @@ def run(cx):
         co = cx.coroutine(f"{RH}::InboundRequestHandler::start")
         o = Origins(co)
         from . import c06
-        sub = cx.__class__("C09", prog, cx.tier, cx.config, cx.tree)
+        sub = cx.__class__("C09", prog, cx.tier, cx.config, cx.tree, repo=cx.repo)
         c06.run(sub)
         w = [x for x in sub.obs if x.oid == "C06.3"]
         ob.require(len(w) == 1 and not w[0].violations, "loop/errors-leave", "handler loop arm rules (C06.3) refuted: " + "; ".join(v.msg for v in (w[0].violations if w else []))[:300], co.path)
